@@ -125,6 +125,11 @@ def run(rep: Report) -> None:
     rep.rule("R09.7", "reachable for the planner (necessary condition from the planner's own rules, re-verified in conversions.py): a "
              "named unit that is not decomposed through a compound equivalence of its own has a declared path to the SI target or "
              "to a unit made of factors the target decomposes into", floor=120)
+    rep.rule("R05.12", "no two base units of an inverse fundamental dimension are linked by declared equivalences - shared with C05", floor=1)
+    rep.rule("R05.5", "declared ratios are positive; a scale with a zero point is the unit of no other declaration and a factor of no declared or named compound "
+             "(its conversions would carry the offset) - shared with C05", floor=200)
+    from .c05 import check_declared
+    check_declared(rep)
     from ..model import Program
     from ..planner_reach import PlannerReach, coherent_si, dimensionless_factors, sheds_dimensionless, verify_anchors
     prog = Program()
